@@ -450,7 +450,9 @@ func (c *childState) runHistory(hi int, h *history) (abort bool) {
 	c.sum.PollReads += reads
 	c.sum.PollBad += bad
 	c.emit(tr.E{"ev": "poll", "reads": reads, "bad": bad, "distinct": distinct, "sample": sample})
-	c.emit(tr.E{"ev": "end", "hid": h.ID, "alive": crashFree})
+	lh := lastHook
+	c.emit(tr.E{"ev": "end", "hid": h.ID, "alive": crashFree, "range": lastRange, "published": havePub, "hookSeen": lh["have"] == true,
+		"latest": toInt(lh["latest"]), "started": lh["started"] == true, "nrTracks": toInt(lh["nrTracks"])})
 	if started {
 		c.sum.Started++
 	}
